@@ -618,4 +618,153 @@ theorem docxHeads_any (T : Tables) (ps : List DocxPara) (x : Str) (hx : x ∈ do
 
 theorem hinv_init : HInv {} [] := ⟨rfl, rfl, by simp⟩
 
+
+/-! ### PPTX slide order -/
+
+theorem slideOrder_eq_filterMap (rels : List Rel) (ids : List (Option Str)) :
+    slideOrder rels ids = ids.filterMap (sldResolve rels) := by
+  unfold slideOrder
+  congr 1
+
+/-! ### RTF: surrogate pairs and page buffers -/
+
+/-- the buffer ends in a high surrogate (its low half, if any, would be in the next page's buffer) -/
+def endsHigh : List Nat → Bool
+  | [] => false
+  | [c] => isHighSur c
+  | _ :: r => endsHigh r
+
+/-- number of `\page` / `\sbkpage` events -/
+def rtfBreaks : List RtfEv → Nat
+  | [] => 0
+  | .brk :: r => rtfBreaks r + 1
+  | .ch _ :: r => rtfBreaks r
+
+theorem isSur_of_high {c : Nat} (h : isHighSur c = true) : isSur c = true := by
+  simp only [isHighSur, isSur, Bool.and_eq_true, decide_eq_true_eq] at *
+  omega
+
+theorem not_high_of_low {c : Nat} (h : isLowSur c = true) : isHighSur c = false := by
+  simp only [isHighSur, isLowSur, Bool.and_eq_true, decide_eq_true_eq, Bool.and_eq_false_iff, decide_eq_false_iff_not] at *
+  omega
+
+theorem endsHigh_cons_cons (a b : Nat) (r : List Nat) : endsHigh (a :: b :: r) = endsHigh (b :: r) := by
+  simp [endsHigh]
+
+theorem combineSur_cons_of_not_high (c : Nat) (r : List Nat) (h : isHighSur c = false) :
+    combineSur (c :: r) = (if isSur c then 0xFFFD else c) :: combineSur r := by
+  cases r with
+  | nil => by_cases hs : isSur c = true <;> simp [combineSur, hs]
+  | cons l r => simp [combineSur, h]
+
+/-- cutting a buffer where it does not end in a high surrogate commutes with combining the pairs -/
+theorem combineSur_append (a b : List Nat) (h : endsHigh a = false) :
+    combineSur (a ++ b) = combineSur a ++ combineSur b := by
+  induction a using combineSur.induct with
+  | case1 => simp [combineSur]
+  | case2 c _ =>
+    have hc : isHighSur c = false := by simpa [endsHigh] using h
+    rw [List.singleton_append, combineSur_cons_of_not_high c b hc, combineSur_cons_of_not_high c [] hc]
+    simp [combineSur]
+  | case3 c _ =>
+    have hc : isHighSur c = false := by simpa [endsHigh] using h
+    rw [List.singleton_append, combineSur_cons_of_not_high c b hc, combineSur_cons_of_not_high c [] hc]
+    simp [combineSur]
+  | case4 hi lo r hp ih =>
+    have hr : endsHigh r = false := by
+      cases r with
+      | nil => rfl
+      | cons x xs => rw [endsHigh_cons_cons, endsHigh_cons_cons] at h; exact h
+    simp only [List.cons_append, combineSur, hp, ih hr]
+    simp
+  | case5 hi lo r hp ih =>
+    have hr : endsHigh (lo :: r) = false := by rw [endsHigh_cons_cons] at h; exact h
+    have := ih hr
+    simp only [List.cons_append] at this ⊢
+    simp only [combineSur, hp, this]
+    simp
+
+theorem combineSur_flatten (ps : List (List Nat)) (h : ∀ p ∈ ps, endsHigh p = false) :
+    (ps.map combineSur).flatten = combineSur ps.flatten := by
+  induction ps with
+  | nil => simp [combineSur]
+  | cons p r ih =>
+    simp only [List.map_cons, List.flatten_cons]
+    rw [combineSur_append p _ (h p (by simp)), ih (fun q hq => h q (by simp [hq]))]
+
+theorem combineSur_pair (h l : Nat) (r : List Nat) (hp : (isHighSur h && isLowSur l) = true) :
+    combineSur (h :: l :: r) = (0x10000 + (h - 0xD800) * 0x400 + (l - 0xDC00)) :: combineSur r := by
+  simp [combineSur, hp]
+
+theorem combineSur_nonpair (h l : Nat) (r : List Nat) (hp : ¬(isHighSur h && isLowSur l) = true) :
+    combineSur (h :: l :: r) = (if isSur h then 0xFFFD else h) :: combineSur (l :: r) := by
+  simp [combineSur, hp]
+
+theorem isSur_fffd : isSur 0xFFFD = false := by decide
+
+theorem isSur_ite (c : Nat) : isSur (if isSur c = true then 0xFFFD else c) = false := by
+  by_cases hs : isSur c = true
+  · rw [if_pos hs]; exact isSur_fffd
+  · rw [if_neg hs]; simpa using hs
+
+/-- the result of combining holds no surrogate code point: "the text stays encodable" -/
+theorem combineSur_no_sur (l : List Nat) : ∀ x ∈ combineSur l, isSur x = false := by
+  induction l using combineSur.induct with
+  | case1 => simp [combineSur]
+  | case2 c hs =>
+    intro x hx
+    have : combineSur [c] = [0xFFFD] := by simp [combineSur, hs]
+    rw [this, List.mem_singleton] at hx
+    rw [hx]; exact isSur_fffd
+  | case3 c hs =>
+    intro x hx
+    have : combineSur [c] = [c] := by simp [combineSur, hs]
+    rw [this, List.mem_singleton] at hx
+    rw [hx]; simpa using hs
+  | case4 hi lo r hp ih =>
+    intro x hx
+    rw [combineSur_pair hi lo r hp, List.mem_cons] at hx
+    rcases hx with hx | hx
+    · have hge : 0x10000 ≤ x := by omega
+      simp only [isSur, Bool.and_eq_false_iff, decide_eq_false_iff_not]
+      omega
+    · exact ih x hx
+  | case5 hi lo r hp ih =>
+    intro x hx
+    rw [combineSur_nonpair hi lo r hp, List.mem_cons] at hx
+    rcases hx with hx | hx
+    · rw [hx]; exact isSur_ite hi
+    · exact ih x hx
+
+/-- text without surrogates is unchanged (the function's early return is not a special case) -/
+theorem combineSur_id (l : List Nat) (h : ∀ x ∈ l, isSur x = false) : combineSur l = l := by
+  induction l with
+  | nil => rfl
+  | cons c r ih =>
+    have hc : isSur c = false := h c (by simp)
+    have hh : isHighSur c = false := by
+      cases hq : isHighSur c with
+      | false => rfl
+      | true => rw [isSur_of_high hq] at hc; cases hc
+    rw [combineSur_cons_of_not_high c r hh, ih (fun x hx => h x (by simp [hx]))]
+    simp [hc]
+
+theorem rtfPiecesAux_flatten (evs : List RtfEv) (cur : List Nat) :
+    (rtfPiecesAux evs cur).flatten = cur.reverse ++ rtfChars evs := by
+  induction evs generalizing cur with
+  | nil => simp [rtfPiecesAux, rtfChars]
+  | cons e r ih =>
+    cases e with
+    | ch c => simp [rtfPiecesAux, rtfChars, ih]
+    | brk => simp [rtfPiecesAux, rtfChars, ih]
+
+theorem rtfPiecesAux_length (evs : List RtfEv) (cur : List Nat) :
+    (rtfPiecesAux evs cur).length = rtfBreaks evs + 1 := by
+  induction evs generalizing cur with
+  | nil => simp [rtfPiecesAux, rtfBreaks]
+  | cons e r ih =>
+    cases e with
+    | ch c => simp [rtfPiecesAux, rtfBreaks, ih]
+    | brk => simp [rtfPiecesAux, rtfBreaks, ih]
+
 end S2T.Units
